@@ -139,7 +139,15 @@ def run(pid: str, repo: str, seed: int = 0, verbose: bool = True) -> int:
         nv = sum(1 for m in muts if m["expect"] == "violation")
         print(f"[{pid}] self-test: {len(muts) - bad - skipped}/{len(muts) - skipped} as expected ({nv} seeded defects, {len(muts) - nv} benign twins"
               + (f"; {skipped} variants do not apply to this tree and were skipped" if skipped else "") + ")")
+    LAST_SUMMARY.clear()
+    LAST_SUMMARY.update({"variants": len(muts), "applied": len(muts) - skipped, "as_expected": len(muts) - bad - skipped, "not_as_expected": bad,
+                         "seeded_defects": sum(1 for m in muts if m["expect"] == "violation"), "benign_twins": sum(1 for m in muts if m["expect"] == "silent"),
+                         "stored_patches": sum(1 for m in muts if m.get("patch")),
+                         "rule": "each variant is a scratch copy of <repo>/src with one edit; seeded defects must be reported (rule named), benign twins and stored refactorings must stay silent"})
     return 1 if bad else 0
+
+
+LAST_SUMMARY: dict = {}
 
 
 if __name__ == "__main__":
